@@ -429,12 +429,13 @@ example : ∃ s', (tryCore (throw (Sig.err ⟨"Operand is not a number", 1, 1⟩
 
     Proved here: exactly that, for the sub-language `Frag` (`Ecal/Lemmas/C06NoPanic.lean`): the literals
     `number true false null` and raw string literals, unary and binary `plus minus`, `times div divint`,
-    `modint` (the repaired zero-divisor site), `and or not`, and `guard` nodes, nested to any depth — over
+    `modint` (the repaired zero-divisor site), `and or not`, `guard`, `break continue`, `return` (with or
+    without value) and `statements` blocks of any length, nested to any depth — over
     ANY state and scope (no hypothesis on the heap) and any fuel. These are the constructs whose Go code
     asserts operand kinds and divides integers.
     Missing: identifiers / assignment / access paths, list and map literals, `== != in notin`, function
     declarations and calls (the argument checks of the builtins are covered by `builtin_total` on the
-    Prims model instead), statements / `if` / loops / `try` (their control skeleton: `error_in_try_catchable`
+    Prims model instead), `if` / loops / `try` (their control skeleton: `error_in_try_catchable`
     and the C04 theorems about the combinators), interpolating strings, and the comparison / string
     operators. The last two stringify values: that is where the known finding
     `cyclic-container-stringify` lives; the Lean model cannot panic there (its printer is fuel-bounded),
